@@ -2,9 +2,10 @@
 """seed_store.py <id> <src SEED dir or -> <detected_by|-> <before:yes|no|pending> [strengthening text]
 Copies a confirmed seeded change into seeded/<id>/ and writes meta.json (origin, confirmation, detection)."""
 import json, os, shutil, sys
-pid, src, det, before = sys.argv[1:5]
+name, src, det, before = sys.argv[1:5]
+pid = name[:3]  # C08b = second seeded change for C08
 strength = sys.argv[5] if len(sys.argv) > 5 else ""
-dst = f"/verif/seeded/{pid}"
+dst = f"/verif/seeded/{name}"
 if src != "-":
     os.makedirs(dst, exist_ok=True)
     shutil.copy(f"{src}/patch.diff", f"{dst}/patch.diff")
@@ -12,11 +13,11 @@ if src != "-":
     shutil.copytree(f"{src}/demo", f"{dst}/demo")
     shutil.copy(f"{src}/meta.json", f"{dst}/meta.orig.json")
 m = json.load(open(f"{dst}/meta.orig.json"))
-m["origin"] = f"independent sub-agent given only the property text and its own scratch worktree (/tmp/seed/{pid}); nothing from /verif"
+m["origin"] = f"independent sub-agent given only the property text and its own scratch worktree (/tmp/seed/{name}); nothing from /verif"
 m["confirmed_by_coordinator"] = {
-    "how": f"tools/seed_verify.sh in a fresh scratch worktree (/tmp/seedv/{pid}, removed afterwards): demo passes without the patch; with the patch `go build ./...` succeeds, the 11 pinned packages pass (demo file not in place), demo fails",
+    "how": f"tools/seed_verify.sh in a fresh scratch worktree (/tmp/seedv/{name}, removed afterwards): demo passes without the patch; with the patch `go build ./...` succeeds, the 11 pinned packages pass (demo file not in place), demo fails",
     "result": "SEED CONFIRMED"}
-cr = {"cmd": f"./tools/detect.sh {pid} seeded/{pid}/patch.diff (overlay of the patched files; /repo untouched)"}
+cr = {"cmd": f"./tools/detect.sh {pid} seeded/{name}/patch.diff (overlay of the patched files; /repo untouched)"}
 if before == "pending":
     cr["detected_by"] = None; cr["status"] = "not detected yet; strengthening pending"
 else:
